@@ -18,14 +18,17 @@ def main(path):
         # a history: the cases are executed in order in this one process (state that the real code
         # keeps between calls, e.g. a module-level cache, is part of the counterexample)
         verdict, detail = "PASS", None
-        for index, args in enumerate(rec["sequence"]):
-            verdict, detail = chx.run_concrete(fn, args)
-            if verdict == "FAIL":
-                rec["args"] = args
-                detail = f"after {index} earlier case(s) in the same process: {detail}"
-                break
-        else:
-            rec["args"] = rec["sequence"][-1]
+        from engine.envmodel import adversarial_id
+
+        with adversarial_id():  # as in the run that found it (engine/envmodel.py): id() may reuse a dead object's number
+            for index, args in enumerate(rec["sequence"]):
+                verdict, detail = chx.run_concrete(fn, args)
+                if verdict == "FAIL":
+                    rec["args"] = args
+                    detail = f"after {index} earlier case(s) in the same process: {detail}"
+                    break
+            else:
+                rec["args"] = rec["sequence"][-1]
     else:
         verdict, detail = chx.run_concrete(fn, rec["args"])
     desc = None
